@@ -282,7 +282,12 @@ func haveDir(pth string) error {
 		if err := haveDir(filepath.Dir(pth)); err != nil {
 			return err
 		}
-		return os.Mkdir(pth, 0777)
+		err = os.Mkdir(pth, 0777)
+	}
+	if os.IsExist(err) {
+		// Somebody else made it in the meantime: that is what we wanted.
+		// (Two first writers of one shard directory race here; the loser must not fail its put.)
+		return nil
 	}
 	return err
 }
